@@ -966,9 +966,20 @@ def op_records(data):
     for sg in root.tables(2):
         names = [t.string(3) or "" for t in sg.tables(0)]
         sigs = {}
+        nbuf = [len(bf.bytes_vec(0) or b"") for bf in root.tables(4)]
+        descs = {}
         for t in sg.tables(0):
             q = t.table(4)
             quant = (tuple(q.vector(2, "f") or []), tuple(q.vector(3, "q") or []), q.scalar(6, "i")) if q is not None else None
+            # description token for Spec.TensorDesc (only transcription: Lean normalises and compares):
+            # shape;type;scale bit patterns;zero points;quantised dimension;c|d
+            bi = t.scalar(2, "I")
+            is_const = 0 <= bi < len(nbuf) and nbuf[bi] > 0
+            sc, zp, qd = quant if quant is not None else ((), (), 0)
+            descs.setdefault(t.string(3) or "", ";".join([
+                "/".join(str(int(d)) for d in (t.vector(0, "i") or [])), str(t.scalar(1, "b")),
+                "/".join(str(struct.unpack("<I", struct.pack("<f", x))[0]) for x in sc), "/".join(str(int(z)) for z in zp), str(int(qd)),
+                "c" if is_const else "d"]))
             if quant is not None and not quant[0] and not quant[1]:
                 quant = None
             # (shape, data type, quantisation): what a consumer is told about the tensor
@@ -999,10 +1010,34 @@ def op_records(data):
             co = o.bytes_vec(5)
             esc = lambda s: s.replace(" ", "_").replace("|", "_")  # noqa: E731
             canon = "|".join([str(code), esc(custom), str(otype), ",".join(fields) or "-", co.hex() if co else "-",
-                              ",".join(esc(n) for n in ins) or "-", ",".join(esc(n) for n in outs) or "-"])
+                              ",".join(esc(n) for n in ins) or "-", ",".join(esc(n) for n in outs) or "-",
+                              ",".join(descs.get(n, "~") if n != "~" else "~" for n in ins) or "-",
+                              ",".join(descs.get(n, "~") if n != "~" else "~" for n in outs) or "-"])
             out.append({"code": code, "custom": custom, "ins": ins, "outs": outs, "canon": canon, "in_sigs": in_sigs,
                         "out_sigs": [sigs.get(n) for n in outs]})
     return out
+
+
+CANON_FIELDS = ("code", "custom code", "options type", "options", "custom options", "inputs", "outputs", "operand descriptions",
+                "result descriptions")
+
+
+def canon_diff(canon_s, canon_o):
+    """names of the record fields that differ (for the message and the finding key; the verdict is Lean's).  A difference
+    confined to the zero points of ONE operand that were all written as 0 is named precisely — the signature of a
+    --force-symmetric-int-weights rewrite that reached an operator left on the CPU."""
+    ps, po = canon_s.split("|"), canon_o.split("|")
+    what = [n for n, x, y in zip(CANON_FIELDS, ps, po) if x != y]
+    if what == ["operand descriptions"] and len(ps) == 9:
+        a, b = ps[7].split(","), po[7].split(",")
+        diff = [k for k, (x, y) in enumerate(zip(a, b)) if x != y] if len(a) == len(b) else []
+        if len(diff) == 1:
+            fa, fb = a[diff[0]].split(";"), b[diff[0]].split(";")
+            if len(fa) == 6 and len(fb) == 6 and fa[:3] == fb[:3] and fa[4:] == fb[4:]:
+                zs, zo = fa[3].split("/"), fb[3].split("/")
+                if len(zs) == len(zo) and all(z == "0" for z in zo):
+                    what = [f"operand{diff[0]}-zero-points-zeroed-{'const' if fa[5] == 'c' else 'dynamic'}-{'per-axis' if len(zs) > 1 else 'per-tensor'}"]
+    return what
 
 
 def alias_tokens(src_records, so, oo):
